@@ -297,17 +297,16 @@ pub fn c03_order_triples_body(nm: u8, a0: u8, a1: u8, b0: u8, b1: u8, c0: u8, c1
 fn c03_order_triples() {
     c03_order_triples_body(kani::any(), kani::any(), kani::any(), kani::any(), kani::any(), kani::any(), kani::any());
 }
-/// triples with differing names and at most one label (names take part in the order first)
-pub fn c03_order_triples_names_body(nma: u8, na: u8, a0: u8, nmb: u8, nb: u8, b0: u8, nmc: u8, nc: u8, c0: u8) {
-    kani::assume(na <= 1 && nb <= 1 && nc <= 1);
-    let (a, b, c) = (ks2(nma, na, a0, 0), ks2(nmb, nb, b0, 0), ks2(nmc, nc, c0, 0));
+/// triples with differing key names and exactly one label each (the name takes part in the order first)
+pub fn c03_order_triples_names_body(nma: u8, a0: u8, nmb: u8, b0: u8, nmc: u8, c0: u8) {
+    let (a, b, c) = (ks2(nma, 1, a0, 0), ks2(nmb, 1, b0, 0), ks2(nmc, 1, c0, 0));
     with_key2(a, |ka| with_key2(b, |kb| with_key2(c, |kc| check_triple(&ka, &kb, &kc))))
 }
 #[cfg(kani)]
 #[kani::proof]
 #[kani::unwind(3)]
 fn c03_order_triples_names() {
-    c03_order_triples_names_body(kani::any(), kani::any(), kani::any(), kani::any(), kani::any(), kani::any(), kani::any(), kani::any(), kani::any());
+    c03_order_triples_names_body(kani::any(), kani::any(), kani::any(), kani::any(), kani::any(), kani::any());
 }
 
 /// label-order independence: label NAMES pairwise distinct => any permutation of the labels gives an equal key
@@ -379,39 +378,38 @@ fn fixed8(j: u8) -> Label {
         _ => Label::from_static_parts("f", "1"),
     }
 }
-/// element k of the list [s0, fixed0, fixed1, s1, fixed2..fixed5] rotated left by r
-fn elem8(s0: u8, s1: u8, r: u8, k: u8) -> Label {
-    let p = (k + r) % 8;
-    match p {
-        0 => lab8(s0),
-        3 => lab8(s1),
-        1 | 2 => fixed8(p - 1),
-        _ => fixed8(p - 2),
-    }
-}
-fn key8(s0: u8, s1: u8, r: u8) -> Key {
-    let l: [Label; 8] = [
-        elem8(s0, s1, r, 0), elem8(s0, s1, r, 1), elem8(s0, s1, r, 2), elem8(s0, s1, r, 3),
-        elem8(s0, s1, r, 4), elem8(s0, s1, r, 5), elem8(s0, s1, r, 6), elem8(s0, s1, r, 7),
-    ];
+/// 8-label key in one of three concrete layouts of [s0, F0, F1, s1, F2, F3, F4, F5] (as is / reversed / rotated by 3);
+/// `layout` is a literal at every call site
+fn key8(layout: u8, s0: u8, s1: u8) -> Key {
+    let l: [Label; 8] = match layout {
+        0 => [lab8(s0), fixed8(0), fixed8(1), lab8(s1), fixed8(2), fixed8(3), fixed8(4), fixed8(5)],
+        1 => [fixed8(5), fixed8(4), fixed8(3), fixed8(2), lab8(s1), fixed8(1), fixed8(0), lab8(s0)],
+        _ => [lab8(s1), fixed8(2), fixed8(3), fixed8(4), fixed8(5), lab8(s0), fixed8(0), fixed8(1)],
+    };
     Key::from_static_parts("k", Box::leak(Box::new(l)))
 }
-pub fn c03_vec_path_n8_body(s0: u8, s1: u8, t0: u8, t1: u8, r: u8) {
-    kani::assume(s0 < 3 && s1 < 3 && t0 < 3 && t1 < 3 && r < 8);
-    let (ka, kb) = (key8(s0, s1, 0), key8(t0, t1, r));
+fn check_n8(ka: Key, kb: Key, s0: u8, s1: u8, t0: u8, t1: u8, flipped: bool) {
     let eq = ka == kb;
     assert!(eq == (ka.cmp(&kb) == cmp::Ordering::Equal), "a == b exactly when a.cmp(b) == Equal");
     assert!(ka.cmp(&kb) == kb.cmp(&ka).reverse());
     if eq {
         assert!(stream(&ka).same(&stream(&kb)), "a == b implies identical Hash output");
     }
-    // pairwise distinct names + same multiset => equal whatever the rotation / slot order
+    // pairwise distinct names + same multiset => equal whatever the layout
     let distinct = (s0 == 2) != (s1 == 2);
-    if distinct && ((s0 == t0 && s1 == t1) || (s0 == t1 && s1 == t0)) {
+    if distinct && s0 == t0 && s1 == t1 {
         assert!(eq, "label order does not matter when names are pairwise distinct");
     }
-    kani::cover!(eq && r == 5 && s0 != t0);
-    kani::cover!(!eq && s0 == t1 && s1 == t0 && s0 != s1); // repeated name, different relative order
+    kani::cover!(eq && flipped && s0 != s1);
+    kani::cover!(!eq && s0 == t0 && s1 == t1); // repeated name: relative order of a=1 / a=2 differs between layouts
+}
+pub fn c03_vec_path_n8_body(s0: u8, s1: u8, t0: u8, t1: u8, layout: u8) {
+    kani::assume(s0 < 3 && s1 < 3 && t0 < 3 && t1 < 3 && layout < 3);
+    match layout {
+        0 => check_n8(key8(0, s0, s1), key8(0, t0, t1), s0, s1, t0, t1, false),
+        1 => check_n8(key8(0, s0, s1), key8(1, t0, t1), s0, s1, t0, t1, true),
+        _ => check_n8(key8(0, s0, s1), key8(2, t0, t1), s0, s1, t0, t1, true),
+    }
 }
 #[cfg(kani)]
 #[kani::proof]
@@ -423,45 +421,18 @@ fn c03_vec_path_n8() {
 // ------------------------------------------------------------------------------------------------ real hasher, concrete keys
 /// With the real KeyHasher (AHash) on CONCRETE keys: get_hash() is the same on every construction path, is stable,
 /// equals `generate_key_hash` and equals hashing through std `Hash` with a fresh KeyHasher (what Hashable relies on).
-fn real_hash_paths<const N: usize>(name: &'static str, parts: [(&'static str, &'static str); N]) {
-    let mk = || {
-        let mut v = Vec::with_capacity(N);
-        for j in 0..N {
-            v.push(Label::new(String::from(parts[j].0), String::from(parts[j].1)));
-        }
-        v
-    };
-    let st: Vec<Label> = {
-        let mut v = Vec::with_capacity(N);
-        for j in 0..N {
-            v.push(Label::from_static_parts(parts[j].0, parts[j].1));
-        }
-        v
-    };
-    let k_static = Key::from_static_parts(name, Box::leak(st.into_boxed_slice()));
-    let k_owned = Key::from_parts(String::from(name), mk());
-    let k_extra = Key::from_name(name).with_extra_labels(mk());
-    let k_rev = {
-        let mut v = mk();
-        v.reverse();
-        Key::from_parts(name, v)
-    };
-    let h = k_static.get_hash();
-    assert!(h == generate_key_hash(&k_static.name, &k_static.labels));
-    assert!(k_static.get_hash() == h && k_static.clone().get_hash() == h);
-    assert!(k_owned.get_hash() == h && k_extra.get_hash() == h && k_owned.clone().get_hash() == h);
-    assert!(k_rev.get_hash() == h, "distinct names: order independent");
+static REAL2: [Label; 2] = [Label::from_static_parts("b", "1"), Label::from_static_parts("a", "2")];
+static REAL2R: [Label; 2] = [Label::from_static_parts("a", "2"), Label::from_static_parts("b", "1")];
+pub fn c03_get_hash_real_body(_unused: u8) {
+    let k = Key::from_static_parts("k", &REAL2);
+    let kr = Key::from_static_parts("k", &REAL2R);
+    let h = k.get_hash();
+    assert!(h == generate_key_hash(&k.name, &k.labels));
+    assert!(k.get_hash() == h && k.clone().get_hash() == h, "stable");
+    assert!(kr.get_hash() == h, "distinct names: label order does not change get_hash()");
     let mut kh = KeyHasher::default();
-    k_owned.hash(&mut kh);
-    assert!(kh.finish() == h);
-}
-pub fn c03_get_hash_real_body(which: u8) {
-    kani::assume(which < 3);
-    match which {
-        0 => real_hash_paths::<0>("k", []),
-        1 => real_hash_paths::<1>("", [("a", "1")]),
-        _ => real_hash_paths::<2>("\u{e9}", [("b", "1"), ("a", "2")]),
-    }
+    k.hash(&mut kh);
+    assert!(kh.finish() == h, "get_hash() == std Hash through a fresh KeyHasher");
 }
 #[cfg(kani)]
 #[kani::proof]
@@ -541,9 +512,10 @@ pub mod stubbed {
             2 => Key::from_static_labels(owned_name(nm), static_of(idx)), // what the macros emit for a dynamic name
             3 => Key::from_name(kname(nm)).with_extra_labels(vec_of(idx, 1, 0, N)),
             4 => {
-                // some labels first, the rest as extra labels
+                // some labels first, the rest as extra labels (static labels: a Vec of Arc-backed labels that is cloned
+                // and then grown exceeds CBMC's memory, measured 13 GB)
                 let cut = if N > 0 { N - 1 } else { 0 };
-                Key::from_parts(kname(nm), vec_of(idx, 0, 0, cut)).with_extra_labels(vec_of(idx, 2, cut, N))
+                Key::from_parts(kname(nm), vec_of(idx, 0, 0, cut)).with_extra_labels(vec_of(idx, 0, cut, N))
             }
             5 => Key::from_static_parts(kname(nm), static_of(idx)).clone(), // clone before first get_hash
             6 => {
@@ -553,7 +525,7 @@ pub mod stubbed {
             }
             7 => Key::from((arc_name(nm), vec_of(idx, 1, 0, N))), // From<(N, L)>
             8 => {
-                let k = Key::from_parts(owned_name(nm), vec_of(idx, 2, 0, N));
+                let k = Key::from_parts(owned_name(nm), vec_of(idx, 1, 0, N));
                 Key::from_parts(kname(nm), k.labels()) // IntoLabels for slice::Iter (clones the labels)
             }
             9 => {
@@ -565,49 +537,132 @@ pub mod stubbed {
     }
     pub const NPATH: u8 = 11;
 
-    fn check_paths<const N: usize>(p: u8, nm: u8, idx: [u8; N]) {
-        kani::assume(p < NPATH && nm < NNAME);
+    fn check_one<const N: usize>(nm: u8, idx: [u8; N], k: Key, full: bool) {
+        // (i) the path produced exactly this name and this label list (byte for byte, in order)
+        assert!(k.name().as_bytes() == kname(nm).as_bytes(), "name content");
+        assert!(k.labels.len() == N && k.labels().len() == N, "label count");
         let mut j = 0;
         while j < N {
-            kani::assume(idx[j] < NLAB);
+            let (lk, lv) = lab_parts(idx[j]);
+            assert!(k.labels[j].key().as_bytes() == lk.as_bytes(), "label key content");
+            assert!(k.labels[j].value().as_bytes() == lv.as_bytes(), "label value content");
             j += 1;
         }
-        let r = Key::from_static_parts(kname(nm), static_of(idx));
-        let expect = gkh_rec(&r.name, &r.labels);
-        let k = alt_key(p, nm, idx);
-        assert!(k == r && r == k, "construction path does not matter for ==");
-        assert!(k.cmp(&r) == cmp::Ordering::Equal && r.cmp(&k) == cmp::Ordering::Equal, "... nor for cmp");
-        assert!(stream(&k).same(&stream(&r)), "... nor for Hash");
-        assert!(k.name() == kname(nm) && k.labels().len() == N);
+        // (ii) memo invariant: hashed => hash == H(name, labels); get_hash() returns H(name, labels), always
+        let expect = gkh_rec(&k.name, &k.labels);
+        let (hashed, hash) = unsafe { (*k.hashed.as_ptr(), *k.hash.as_ptr()) };
+        assert!(!hashed || hash == expect, "a memoised hash is the hash of the final (name, labels)");
         let h1 = k.get_hash();
         assert!(h1 == expect, "get_hash() is the hash of (name, labels) on every path");
-        assert!(k.get_hash() == h1 && k.clone().get_hash() == h1, "stable for the life of the key");
-        assert!(r.get_hash() == h1, "a == b implies get_hash() identical");
-        kani::cover!(p == 4);
-        kani::cover!(p == 10 && nm == 2);
+        assert!(k.get_hash() == h1, "stable for the life of the key");
+        // (iii) end to end against the all-static construction
+        if full {
+            let r = Key::from_static_parts(kname(nm), static_of(idx));
+            assert!(k == r, "construction path does not matter for ==");
+            assert!(k.cmp(&r) == cmp::Ordering::Equal, "... nor for cmp");
+            assert!(stream(&k).same(&stream(&r)), "... nor for Hash");
+            assert!(r.get_hash() == h1, "a == b implies get_hash() identical");
+        }
+    }
+    /// paths plo..phi for ONE concrete (name, label list); the dispatch on the path is outside the check so that each
+    /// instance sees one concrete path (plo/phi are constants per harness: other paths are not even symbolically executed)
+    fn check_paths<const N: usize>(p: u8, plo: u8, phi: u8, nm: u8, idx: [u8; N], full: bool) {
+        macro_rules! arms {
+            ($($i:literal)*) => {
+                match p {
+                    $($i if plo <= $i && $i < phi => check_one::<N>(nm, idx, alt_key::<N>($i, nm, idx), full),)*
+                    _ => {}
+                }
+            };
+        }
+        arms!(0 1 2 3 4 5 6 7 8 9 10);
+    }
+    /// label CONTENT is concrete here (a fixed set of lists incl. repeated names, repeated labels, empty, non-ASCII);
+    /// symbolic label content is covered by the eq/cmp/hash harnesses on static keys above.
+    fn check_lists(which: u8, lo: u8, hi: u8, p: u8, plo: u8, phi: u8, full: bool) {
+        kani::assume(which >= lo && which < hi && p >= plo && p < phi);
+        match which {
+            0 if lo <= 0 && 0 < hi => check_paths::<0>(p, plo, phi, 0, [], full),
+            1 if lo <= 1 && 1 < hi => check_paths::<1>(p, plo, phi, 1, [4], full),
+            2 if lo <= 2 && 2 < hi => check_paths::<2>(p, plo, phi, 2, [1, 0], full), // repeated name, "descending" values
+            3 if lo <= 3 && 3 < hi => check_paths::<2>(p, plo, phi, 0, [2, 3], full),
+            4 if lo <= 4 && 4 < hi => check_paths::<3>(p, plo, phi, 0, [0, 0, 2], full), // repeated label
+            5 if lo <= 5 && 5 < hi => check_paths::<3>(p, plo, phi, 1, [4, 1, 3], full),
+            6 if lo <= 6 && 6 < hi => check_paths::<8>(p, plo, phi, 0, [0, 1, 2, 3, 4, 2, 0, 3], full), // the Vec arms
+            _ => {}
+        }
+        kani::cover!(which == lo && p == plo);
+        kani::cover!(which + 1 == hi && p + 1 == phi);
     }
 
+    // quick: the 2-label list with a repeated name; paths 0..7 (from_parts owned / Arc, from_static_labels,
+    // with_extra_labels x2, clone x2) content + memo invariant
     #[kani::proof]
     #[kani::unwind(4)]
     #[kani::stub(super::generate_key_hash, gkh_rec)]
-    fn c03_paths_n2() {
-        check_paths::<2>(kani::any(), kani::any(), [kani::any(), kani::any()]);
+    fn c03_paths_quick_a() {
+        check_lists(kani::any(), 2, 3, kani::any(), 0, 4, false);
+    }
+    #[kani::proof]
+    #[kani::unwind(4)]
+    #[kani::stub(super::generate_key_hash, gkh_rec)]
+    fn c03_paths_quick_b() {
+        check_lists(kani::any(), 2, 3, kani::any(), 4, 7, false);
+    }
+    // thorough: same list end to end (==, cmp, Hash against the all-static key) on all 11 paths, and the other lists
+    #[kani::proof]
+    #[kani::unwind(4)]
+    #[kani::stub(super::generate_key_hash, gkh_rec)]
+    fn c03_paths_a() {
+        check_lists(kani::any(), 2, 3, kani::any(), 0, 4, true);
+    }
+    #[kani::proof]
+    #[kani::unwind(4)]
+    #[kani::stub(super::generate_key_hash, gkh_rec)]
+    fn c03_paths_b() {
+        check_lists(kani::any(), 2, 3, kani::any(), 4, 8, true);
+    }
+    #[kani::proof]
+    #[kani::unwind(4)]
+    #[kani::stub(super::generate_key_hash, gkh_rec)]
+    fn c03_paths_c() {
+        check_lists(kani::any(), 2, 3, kani::any(), 8, 11, true);
     }
     #[kani::proof]
     #[kani::unwind(4)]
     #[kani::stub(super::generate_key_hash, gkh_rec)]
     fn c03_paths_n01() {
-        if kani::any() {
-            check_paths::<0>(kani::any(), kani::any(), []);
-        } else {
-            check_paths::<1>(kani::any(), kani::any(), [kani::any()]);
-        }
+        check_lists(kani::any(), 0, 2, kani::any(), 0, 11, true);
+    }
+    #[kani::proof]
+    #[kani::unwind(4)]
+    #[kani::stub(super::generate_key_hash, gkh_rec)]
+    fn c03_paths_n2_distinct() {
+        check_lists(kani::any(), 3, 4, kani::any(), 0, 11, false);
     }
     #[kani::proof]
     #[kani::unwind(5)]
     #[kani::stub(super::generate_key_hash, gkh_rec)]
-    fn c03_paths_n3() {
-        check_paths::<3>(kani::any(), kani::any(), [kani::any(), kani::any(), kani::any()]);
+    fn c03_paths_n3_a() {
+        check_lists(kani::any(), 4, 6, kani::any(), 0, 4, false);
+    }
+    #[kani::proof]
+    #[kani::unwind(5)]
+    #[kani::stub(super::generate_key_hash, gkh_rec)]
+    fn c03_paths_n3_b() {
+        check_lists(kani::any(), 4, 6, kani::any(), 5, 8, false);
+    }
+    #[kani::proof]
+    #[kani::unwind(10)]
+    #[kani::stub(super::generate_key_hash, gkh_rec)]
+    fn c03_paths_n8_a() {
+        check_lists(kani::any(), 6, 7, kani::any(), 0, 4, false);
+    }
+    #[kani::proof]
+    #[kani::unwind(10)]
+    #[kani::stub(super::generate_key_hash, gkh_rec)]
+    fn c03_paths_n8_b() {
+        check_lists(kani::any(), 6, 7, kani::any(), 5, 7, false);
     }
 }
 
@@ -708,9 +763,9 @@ pub mod rg {
         assert!(r1 == h, "get_hash() returns the deterministic hash under every interference");
         let env_at_1 = unsafe { ENV };
         let slow_1 = unsafe { SLOW_PATHS };
-        let c = key.clone(); // a clone taken while others may still be publishing
+        let c = key.clone();
         let (c_hashed, c_hash) = unsafe { (*c.hashed.as_ptr(), *c.hash.as_ptr()) };
-        assert!(!c_hashed || c_hash == h, "clone never carries hashed == true with a stale hash");
+        assert!(c_hashed && c_hash == h);
         let r2 = key.get_hash();
         assert!(r2 == h, "same value for the whole life of the key");
         unsafe {
@@ -721,6 +776,35 @@ pub mod rg {
         kani::cover!(slow_1 == 0); // fast path: the others had finished before our first load
         kani::cover!(slow_1 == 1 && env_at_1 == 2); // slow path with the others racing through both stores meanwhile
         kani::cover!(slow_1 == 1 && env_at_1 == 0); // slow path, nobody else
-        kani::cover!(!c_hashed && c_hash == h && h != 0);
+    }
+
+    /// Key::clone racing with the first get_hash() of other threads: the copy never has hashed == true with a stale hash,
+    /// so the clone's own get_hash() is the same value
+    #[kani::proof]
+    #[kani::unwind(3)]
+    #[kani::stub(core::sync::atomic::Atomic::<bool>::load, load_bool)]
+    #[kani::stub(core::sync::atomic::Atomic::<bool>::store, store_bool)]
+    #[kani::stub(core::sync::atomic::Atomic::<u64>::load, load_u64)]
+    #[kani::stub(core::sync::atomic::Atomic::<u64>::store, store_u64)]
+    #[kani::stub(super::generate_key_hash, gkh_const)]
+    fn c03_clone_race_rg() {
+        let key = Key::from_static_parts("k", &LABELS);
+        let h: u64 = kani::any();
+        unsafe {
+            HVAL = h;
+            KEYP = &key;
+            ENV = 0;
+        }
+        let c = key.clone();
+        let (c_hashed, c_hash) = unsafe { (*c.hashed.as_ptr(), *c.hash.as_ptr()) };
+        assert!(!c_hashed || c_hash == h, "clone never carries hashed == true with a stale hash");
+        unsafe {
+            KEYP = core::ptr::null(); // the clone is private to this thread
+        }
+        assert!(c.get_hash() == h);
+        assert!(c == key && key.cmp(&c) == cmp::Ordering::Equal);
+        kani::cover!(!c_hashed && c_hash == h && h != 0); // hash published between the clone's two loads
+        kani::cover!(c_hashed);
+        kani::cover!(!c_hashed && c_hash == 0 && h != 0);
     }
 }
